@@ -39,6 +39,7 @@
       `lexAll str true`, budget `7·|str| + 8`, `|str| ≤ n`).
 -/
 import SoyVerif.Props.C05parse
+import SoyVerif.Lemmas.FuelMono
 
 namespace SoyVerif.Props.C05
 open SoyVerif SoyVerif.Model SoyVerif.Model.Parser SoyVerif.Model.FileParser SoyVerif.Lemmas.ParserSafe
@@ -203,5 +204,67 @@ theorem parse_expr_linear (pf : Bytes → Option UInt64) (input : Bytes) :
     revert hnp hnf
     unfold exprEntry
     split <;> simp
+
+/-! ## Fuel monotonicity: a larger budget gives the same answer
+
+  (`Lemmas/FuelMono.lean`: every function of the expression parser and of the file parser, run on a
+  larger budget, returns the same result AND state unless the smaller run ended in `fuelOut`.) -/
+
+theorem parseFileFuel_mono (pf : Bytes → Option UInt64) {e e' a b : Nat} (he : e ≤ e') (hab : a ≤ b)
+    (items : List Item) (h : parseFileFuel pf e a items ≠ .error .fuelOut) :
+    parseFileFuel pf e' b items = parseFileFuel pf e a items := by
+  have hm := ((Lemmas.FuelMono.fileMono pf e e' he a b hab).itemListLoop [.tEOF] none .nil).le
+    { p := Parser.initState items }
+  unfold parseFileFuel at h ⊢
+  simp only [StateT.run] at h ⊢
+  rw [hm]
+  intro hc
+  rw [hc] at h
+  exact h rfl
+
+theorem parseExprFuel_mono (pf : Bytes → Option UInt64) {a b : Nat} (hab : a ≤ b)
+    (items : List Item) (h : parseExprFuel pf a items ≠ .error .fuelOut) :
+    parseExprFuel pf b items = parseExprFuel pf a items := by
+  have hm := ((Lemmas.FuelMono.exprMono pf a b hab).parseExpr 0).le (Parser.initState items)
+  unfold parseExprFuel at h ⊢
+  simp only [StateT.run] at h ⊢
+  rw [hm]
+  intro hc
+  rw [hc] at h
+  exact h rfl
+
+/-- the pipeline on the byte-linear budget IS `parseSource`, the function the correspondence checks tie
+    to the real `parse.SoyFile` -/
+theorem parseSourceFuel_eq (pf : Bytes → Option UInt64) (input : Bytes) :
+    parseSourceFuel pf (sourceFuel input.length) input = parseSource pf input := by
+  obtain ⟨is, hl, hle, hf1, hf2, heq, hne⟩ := parse_source_budgets pf input
+  rw [heq]
+  unfold parseSourceFuel
+  rw [hl]
+  exact parseFileFuel_mono pf hf2 hf1 is (by rw [← heq]; exact hne)
+
+/-- … and on any larger budget -/
+theorem parseSourceFuel_eq_of_le (pf : Bytes → Option UInt64) (input : Bytes) (F : Nat)
+    (hF : sourceFuel input.length ≤ F) : parseSourceFuel pf F input = parseSource pf input := by
+  obtain ⟨is, hl, hle, hf1, hf2, heq, hne⟩ := parse_source_budgets pf input
+  rw [heq]
+  unfold parseSourceFuel
+  rw [hl]
+  exact parseFileFuel_mono pf (by omega) (by omega) is (by rw [← heq]; exact hne)
+
+/-- the same for the standalone expression: the byte-linear budget gives the result of `parse.Expr`'s model -/
+theorem parseExprSourceFuel_eq (pf : Bytes → Option UInt64) (input : Bytes) :
+    parseExprSourceFuel pf (sourceFuel input.length) input = (parseExprSource pf input).result := by
+  obtain ⟨_, _, is, hl, _, hf, hres, hne, _⟩ := parse_expr_linear pf input
+  rw [hres]
+  unfold parseExprSourceFuel
+  rw [hl]
+  exact parseExprFuel_mono pf hf is (by rw [← hres]; exact hne)
+
+/-- `parse.SoyFile`'s model returns within a budget LINEAR in the byte length — stated about `parseSource` itself -/
+theorem parse_source_linear' (pf : Bytes → Option UInt64) (input : Bytes) :
+    parseSource pf input = parseSourceFuel pf (16 * input.length + 72) input ∧
+    parseSource pf input ≠ .error .fuelOut :=
+  ⟨(parseSourceFuel_eq pf input).symm, parse_source_total pf input⟩
 
 end SoyVerif.Props.C05
